@@ -104,4 +104,71 @@ def fitBind (hasBases : Bool) (pos : List Arg) (kw : List (String × Arg)) : Exc
   | .error e => .error e
   | .ok r => .ok (if hasBases then r else r ++ [("input_bases", Arg.none)])
 
+/-! ### the `deprecated_kwarg` alias layer (qucumber/utils/__init__.py:48-75)
+
+`@deprecated_kwarg(target_psi="target", target_rho="target")` decorates `fidelity` and `KL`
+(qucumber/utils/training_statistics.py:26, 137; the only two uses in the package). Every call `f(*args, **kwargs)` first passes
+`kwargs` through `rename` (lines 52-66), then calls the undecorated function with the unchanged positional arguments and the renamed
+keywords (lines 68-75), where Python's ordinary binding (`bindParams`) applies. -/
+section aliaslayer
+variable {V : Type}
+
+/-- `kwargs.pop(alias)` removes the key (a `dict` holds a name at most once; every entry of that name is dropped) -/
+def eraseKey (kw : List (String × V)) (a : String) : List (String × V) := kw.filter (fun q => q.1 != a)
+
+/-- one iteration of the loop of `deprecated_kwarg.rename` (utils/__init__.py:53-64):
+`if alias in kwargs: if true_name in kwargs: raise TypeError(...); warn; kwargs[true_name] = kwargs.pop(alias)` — the popped value is
+re-inserted under the new name at the END of the dict. -/
+def renameStep (kw : List (String × V)) (alias trueName : String) : Except PyErr (List (String × V)) :=
+  match kwLookup kw alias with
+  | none => .ok kw
+  | some v =>
+    match kwLookup kw trueName with
+    | some _ => .error .TypeError
+    | none => .ok (eraseKey kw alias ++ [(trueName, v)])
+
+/-- `deprecated_kwarg.rename(function, kwargs)` (utils/__init__.py:52-66): the aliases in the order of the decorator's keyword
+arguments (`self.aliases.items()`), each step seeing the dict the previous steps left. -/
+def renameKw : List (String × String) → List (String × V) → Except PyErr (List (String × V))
+  | [], kw => .ok kw
+  | (a, t) :: rest, kw =>
+    match renameStep kw a t with
+    | .error e => .error e
+    | .ok kw' => renameKw rest kw'
+
+/-- `wrapped_f(*args, **kwargs)` (utils/__init__.py:70-73): `kwargs = self.rename(f.__name__, kwargs); return f(*args, **kwargs)` —
+rename, then bind the parameters of the undecorated signature `params` + `**kwargs`. A refusal of either stage happens before the
+body of `f` runs. -/
+def aliasCall (table : List (String × String)) (dflt : String → Option V) (params : List String)
+    (pos : List V) (kw : List (String × V)) : Except PyErr (List (String × V)) :=
+  match renameKw table kw with
+  | .error e => .error e
+  | .ok kw' => bindParams dflt kw' params pos
+
+/-- the decorated function's value: the body `f` applied to the bound parameters, or the refusal (the body is not entered) -/
+def aliasCallValue {R : Type} (table : List (String × String)) (dflt : String → Option V) (params : List String)
+    (f : List (String × V) → R) (pos : List V) (kw : List (String × V)) : Except PyErr R :=
+  match aliasCall table dflt params pos kw with
+  | .error e => .error e
+  | .ok r => .ok (f r)
+end aliaslayer
+
+/-- the decorator arguments of `fidelity` and `KL` (training_statistics.py:26, 137), in their written order -/
+def metricAliases : List (String × String) := [("target_psi", "target"), ("target_rho", "target")]
+
+/-- `def fidelity(nn_state, target, space=None, **kwargs)` (training_statistics.py:27) /
+`def KL(nn_state, target, space=None, bases=None, **kwargs)` (training_statistics.py:138) -/
+def metricParams (isKL : Bool) : List String :=
+  ["nn_state", "target", "space"] ++ (if isKL then ["bases"] else [])
+
+/-- the defaults of `fidelity` / `KL`: `space=None`, `bases=None`; `nn_state` and `target` have none -/
+def metricDefault : String → Option Arg
+  | "space" => some .none
+  | "bases" => some .none
+  | _ => none
+
+/-- `fidelity(*pos, **kw)` (`isKL = false`) / `KL(*pos, **kw)` (`isKL = true`) as the decorated function binds its parameters -/
+def metricBind (isKL : Bool) (pos : List Arg) (kw : List (String × Arg)) : Except PyErr (List (String × Arg)) :=
+  aliasCall metricAliases metricDefault (metricParams isKL) pos kw
+
 end QV.CallForm
